@@ -6,7 +6,7 @@ use super::common::*;
 use crate::case::*;
 use crate::engine::*;
 use crate::gen::{self, schema as gs, G};
-use crate::ingest::{self, Outcome};
+use crate::ingest;
 use serde_json::{json, Map, Value};
 use std::collections::{BTreeMap, BTreeSet};
 use typify_impl::{TypeId, TypeSpace};
